@@ -22,6 +22,12 @@ Arguments N.add : simpl never.
 Arguments N.ltb : simpl never.
 Arguments N.eqb : simpl never.
 
+Definition tid (t : tx) : N := q_id (t_q t).
+Definition key (t : tx) : N * N := (q_vaddr (t_q t), q_pid (t_q t)).
+(** (page, PID) of the lookups that are still open (no reply taken yet) *)
+Definition okeys (l : list tx) : list (N * N) := map key (filter (fun t => negb (is_done t)) l).
+Arguments okeys : simpl never.
+
 (** a request [r] belongs to the lookup [q] *)
 Definition req_ok (k : N) (q : treq) (r : msg) : Prop :=
   is_req r = true /\ page_of k (m_addr r) = q_vaddr q /\ m_pid r = q_pid q.
@@ -69,16 +75,25 @@ Record Inv (s : st) : Prop := {
   i_pt    : (length (top_out s) <= width (cfg s))%nat;
   i_pb    : (length (bot_out s) <= width (cfg s))%nat;
   i_px    : (length (tr_out s) <= width (cfg s))%nat;
-  i_pc    : (length (ctl_out s) <= 1)%nat
+  i_pc    : (length (ctl_out s) <= 1)%nat;
+  i_trcons : g_trcons s ++ tr_in s = g_trdel s;
+  i_bcons : g_bcons s ++ bot_in s = g_bdel s;
+  i_txnd  : NoDup (map tid (txs s));
+  i_open  : NoDup (okeys (txs s));
+  i_pci   : (length (ctl_in s) <= 1)%nat
 }.
 
 Ltac inv_split H :=
   destruct H as [Hdeliv Hacct Htxs Htxq Htxr Htrin Hfwd Hfwq Hfwr Htid Htidnd Htreq Hbid Hbidnd
-                 Hpairs Hans Htretr Hbretr Hqretr Hflush Hpt Hpb Hpx Hpc].
+                 Hpairs Hans Htretr Hbretr Hqretr Hflush Hpt Hpb Hpx Hpc
+                 Htrcons Hbcons Htxnd Hopen Hpci].
+
+Lemma okeys_nil : okeys [] = [].
+Proof. reflexivity. Qed.
 
 Lemma init_inv c : Inv (init c).
 Proof.
-  constructor; cbn; auto using NoDup_nil, incl_nil_l; try lia.
+  constructor; cbn; rewrite ?okeys_nil; auto using NoDup_nil, incl_nil_l; try lia.
 Qed.
 
 (** ** list helpers *)
@@ -165,6 +180,22 @@ Qed.
 Lemma xlate_id c id p r : m_id (xlate c id p r) = id.
 Proof. unfold xlate. destruct (m_kind r); reflexivity. Qed.
 
+Lemma okeys_app l1 l2 : okeys (l1 ++ l2) = okeys l1 ++ okeys l2.
+Proof. unfold okeys. now rewrite filter_app, map_app. Qed.
+
+Lemma okeys_cons t l : okeys (t :: l) = (if is_done t then [] else [key t]) ++ okeys l.
+Proof. unfold okeys. cbn. destruct (is_done t); reflexivity. Qed.
+
+Lemma okeys_In k l : In k (okeys l) -> exists t, In t l /\ is_done t = false /\ key t = k.
+Proof.
+  unfold okeys. intros H. apply in_map_iff in H as (t & E & Hin).
+  apply filter_In in Hin as [Hin Hd]. exists t. repeat split; auto.
+  now destruct (is_done t).
+Qed.
+
+Lemma NoDup_drop_mid {A} (a b : list A) x : NoDup (a ++ x :: b) -> NoDup (a ++ b).
+Proof. apply NoDup_remove_1. Qed.
+
 (** moving one element to the front on both sides of a permutation goal *)
 Ltac pfront x :=
   repeat first [ rewrite <- (Permutation_middle _ _ x) | progress cbn [app] ].
@@ -184,6 +215,27 @@ Proof.
   apply N.eqb_eq in Hpid. repeat split; auto.
   - rewrite <- Hp0 in Hpage |- *. now rewrite page_of_idem in Hpage.
   - congruence.
+Qed.
+
+Lemma txs_tid_fresh l g n :
+  incl (map t_q l) g -> Forall (fun q => q_id q < n) g -> Forall (fun t => tid t < n) l.
+Proof.
+  intros Hi Hf. apply Forall_forall. intros t Ht. rewrite Forall_forall in Hf.
+  apply Hf, Hi. now apply in_map.
+Qed.
+
+Lemma no_open_match k req l :
+  Forall (tx_ok k) l -> Forall (fun t => co_match k req t = false) l ->
+  ~ In (page_of k (m_addr req), m_pid req) (okeys l).
+Proof.
+  intros Hok Hno Hin. apply okeys_In in Hin as (t & Ht & Hd & Hk).
+  rewrite Forall_forall in Hok, Hno. specialize (Hok t Ht). specialize (Hno t Ht).
+  destruct Hok as (Hne & Hall & _). unfold co_match in Hno. rewrite Hd in Hno. cbn in Hno.
+  unfold key in Hk. inversion Hk as [[Hv Hp]].
+  destruct (t_reqs t) as [|r0 rs]; [congruence|].
+  inversion Hall as [|? ? (_ & Hp0 & Hpid0) _]; subst.
+  rewrite <- Hp0 in Hno at 1. rewrite page_of_idem, Hp0, Hv, N.eqb_refl in Hno. cbn in Hno.
+  rewrite Hpid0, Hp, N.eqb_refl in Hno. discriminate.
 Qed.
 
 Lemma translate_inv s : Inv s -> flushing s = false -> Inv (fst (translate s)).
@@ -212,7 +264,10 @@ Proof.
     + rewrite map_app in *. exact Htxq.
     + rewrite flat_map_app in *. exact Htxr.
     + rewrite accepted_app. eapply treq_ok_mono; [|exact Htreq]. now apply incl_appl.
-  - destruct (room _ (tr_out s)) eqn:Eroom; [|exact H].
+    + rewrite map_app in *. exact Htxnd.
+    + rewrite okeys_app, okeys_cons in *. exact Hopen.
+  - apply split_first_none in Esp.
+    destruct (room _ (tr_out s)) eqn:Eroom; [|exact H].
     unfold room in Eroom. apply Nat.ltb_lt in Eroom.
     inv_split H. constructor; cbn; auto; try (intros; congruence).
     + rewrite map_app, <- app_assoc. cbn. now rewrite <- Hdeliv, Etop.
@@ -233,6 +288,12 @@ Proof.
         apply in_or_app; right; now left.
     + now rewrite app_assoc, Hqretr.
     + rewrite app_length; cbn; lia.
+    + eapply NoDup_snoc_fresh with (n := next_tid s);
+        [eapply txs_tid_fresh; eauto|exact Htxnd|reflexivity].
+    + rewrite okeys_app, okeys_cons, okeys_nil. cbn.
+      apply NoDup_app_intro; auto.
+      * constructor; auto using NoDup_nil.
+      * intros x Hx [<-|[]]. eapply no_open_match; eauto.
 Qed.
 
 (** ** parseTranslation *)
@@ -253,6 +314,24 @@ Proof.
   constructor; [|constructor]. rewrite Er in Hall. inversion Hall; subst.
   repeat split; cbn; auto; try discriminate. intros ? E; inversion E; subst; auto.
 Qed.
+
+Lemma after_send_tids a t b rs rsp :
+  NoDup (map tid (a ++ t :: b)) -> NoDup (map tid (a ++ after_send t rs rsp ++ b)).
+Proof.
+  intros H. destruct rs; cbn.
+  - rewrite map_app in *. cbn in H. now apply NoDup_remove_1 in H.
+  - rewrite map_app in *. exact H.
+Qed.
+
+Lemma drop_open_keys a t b l :
+  okeys l = [] -> NoDup (okeys (a ++ t :: b)) -> NoDup (okeys (a ++ l ++ b)).
+Proof.
+  intros El H. rewrite !okeys_app, El in *. rewrite okeys_cons in H. cbn.
+  destruct (is_done t); cbn in H; auto. now apply NoDup_remove_1 in H.
+Qed.
+
+Lemma after_send_okeys t rs rsp : okeys (after_send t rs rsp) = [].
+Proof. destruct rs; reflexivity. Qed.
 
 Lemma send_down_inv s a t b r rs rsp :
   Inv s -> txs s = a ++ t :: b -> t_reqs t = r :: rs ->
@@ -294,12 +373,17 @@ Proof.
   - rewrite map_app; cbn. now rewrite app_assoc, Hbretr.
   - intros Hf. destruct (Hflush Hf) as [E _]. destruct a; discriminate.
   - rewrite app_length; cbn; lia.
+  - now apply after_send_tids.
+  - eapply drop_open_keys; eauto using after_send_okeys.
 Qed.
 
-Lemma drop_trin_inv s x rest : Inv s -> tr_in s = x :: rest -> Inv (s <| tr_in := rest |>).
+Lemma drop_trin_inv s x rest :
+  Inv s -> tr_in s = x :: rest ->
+  Inv (s <| tr_in := rest |> <| g_trcons := g_trcons s ++ [x] |>).
 Proof.
   intros H E. inv_split H. constructor; cbn; auto.
-  intros y Hy. apply Htrin. rewrite E. now right.
+  - intros y Hy. apply Htrin. rewrite E. now right.
+  - rewrite <- app_assoc. cbn. now rewrite <- E.
 Qed.
 
 Lemma set_crashed_inv s : Inv s -> Inv (s <| crashed := true |>).
@@ -321,6 +405,10 @@ Proof.
     apply in_app_or in Hx as [Hx|Hx]; [apply Htxr, in_or_app; auto|].
     destruct Hx as [<-|Hx]; auto. apply Htxr. apply in_or_app; right. apply in_or_app; auto.
   - intros Hf. destruct (Hflush Hf) as [E _]. destruct a; discriminate.
+  - rewrite map_app in *. exact Htxnd.
+  - change (a ++ mkTx (t_reqs t) (t_q t) (Some rsp) :: b)
+      with (a ++ [mkTx (t_reqs t) (t_q t) (Some rsp)] ++ b).
+    eapply drop_open_keys; eauto.
 Qed.
 
 Lemma parse_translation_inv s : Inv s -> Inv (fst (parse_translation s)).
@@ -348,7 +436,7 @@ Proof.
     destruct (t_reqs t) as [|r rs] eqn:Er; [apply set_crashed_inv; auto|].
     destruct (is_req r); cbn [negb]; [|apply set_crashed_inv; auto].
     destruct (room _ (bot_out s)) eqn:Eroom; [|exact H1]. cbn [fst].
-    eapply drop_trin_inv with (x := rsp); [eapply send_down_inv; eauto|].
+    apply (drop_trin_inv (send_down s a t b r rs rsp) rsp rest); [eapply send_down_inv; eauto|].
     exact Etr.
 Qed.
 
@@ -359,7 +447,8 @@ Proof.
   destruct (bot_in s) as [|rsp rest] eqn:Ebot; [exact H|].
   destruct (is_rsp rsp) eqn:Ersp; cbn [negb]; [|apply set_crashed_inv; auto].
   destruct (split_first _ (inflight s)) as [[[a p] b]|] eqn:Esp.
-  2:{ inv_split H; constructor; cbn; auto. }
+  2:{ inv_split H; constructor; cbn; auto.
+      rewrite <- app_assoc. cbn. now rewrite <- Ebot. }
   apply split_first_spec in Esp as (Einf & Hid & _). apply N.eqb_eq in Hid.
   destruct (room _ (top_out s)) eqn:Eroom; [|exact H].
   unfold room in Eroom. apply Nat.ltb_lt in Eroom.
@@ -370,6 +459,7 @@ Proof.
   - rewrite map_app; cbn. now rewrite app_assoc, Htretr.
   - intros Hf. destruct (Hflush Hf) as [_ E]. destruct a; discriminate.
   - rewrite app_length; cbn; lia.
+  - rewrite <- app_assoc. cbn. now rewrite <- Ebot.
 Qed.
 
 (** ** control *)
@@ -384,7 +474,10 @@ Proof.
     inv_split H; constructor; cbn; auto using incl_nil_l.
     - rewrite waiting_nil, app_nil_r. exact Hacct.
     - rewrite app_nil_r. exact Hpairs.
-    - rewrite app_length; cbn; lia. }
+    - rewrite app_length; cbn; lia.
+    - constructor.
+    - rewrite okeys_nil. constructor.
+    - rewrite Ectl in Hpci. cbn in Hpci. lia. }
   destruct (has_flag c F_RESTART); [|apply set_crashed_inv; auto].
   destruct (room 1 (ctl_out s)) eqn:Eroom; [|exact H].
   unfold room in Eroom. apply Nat.ltb_lt in Eroom.
@@ -394,6 +487,9 @@ Proof.
   - rewrite accepted_app, accepted_dropped, app_nil_r. exact Htreq.
   - intros; discriminate.
   - rewrite app_length; cbn; lia.
+  - now rewrite app_nil_r.
+  - now rewrite app_nil_r.
+  - rewrite Ectl in Hpci. cbn in Hpci. lia.
 Qed.
 
 (** ** configuration and flushing flag are untouched by the pipeline stages *)
@@ -517,9 +613,12 @@ Proof.
   - destruct (room _ _); [|exact H]. inv_split H; constructor; cbn; auto.
     now rewrite app_assoc, Hdeliv.
   - destruct (room _ _); [|exact H]. inv_split H; constructor; cbn; auto.
+    now rewrite app_assoc, Hbcons.
   - destruct (room _ _); [|exact H]. inv_split H; constructor; cbn; auto using incl_appl.
-    now apply incl_snoc.
-  - destruct (room _ _); [|exact H]. inv_split H; constructor; cbn; auto.
+    + now apply incl_snoc.
+    + now rewrite app_assoc, Htrcons.
+  - destruct (room 1 (ctl_in s)) eqn:Er; [|exact H]. unfold room in Er. apply Nat.ltb_lt in Er.
+    inv_split H; constructor; cbn; auto. rewrite app_length; cbn; lia.
   - pose proof (tick_inv s H) as H1. destruct (tick s) as [s' p]; cbn in H1.
     destruct (crashed s'); exact H1.
   - destruct (top_out s) as [|m r] eqn:E; [exact H|].
